@@ -101,9 +101,16 @@ def r1_lattice(ctx):
   drq = {getattr(x, 'name', x) for x in tables.module_const(ctx, shared.MMU, '_SUPPORTED_DRQ_OPS')}
   fcast_ops = {getattr(x, 'name', x) for x in tables.module_const(ctx, shared.FCAST, 'SUPPORTED_WEIGHT_QUANT_OPS')}
   fixed = fixed_range_tables(ctx)
-  from sa.rules.shared import extract_ladder, ladder_eval  # pylint: disable=g-import-not-at-top
   qt = ctx.repo.func(f'{shared.QTENS}:quant_params_to_tflite_type')
-  lad = extract_ladder(qt, lambda e: isinstance(e, ast.Name))
+  # The function is RUN for the width (a ladder, a table or a dict lookup are the same to this rule; round 18: a
+  # table-driven rewrite was reported because only the if/elif spelling was recognised).
+  width_cache: dict[int, bool] = {}
+
+  def has_tflite_type(bits: int) -> bool:
+    if bits not in width_cache:
+      o = tables.single(ctx, qt.fq, [bits])
+      width_cache[bits] = o.kind == 'return'
+    return width_cache[bits]
   rows = accepted_n = refused_ctor = 0
   rs.exhaustive = True
   gtt_cache = {}
@@ -181,7 +188,7 @@ def r1_lattice(ctx):
         if is_srq and op.name in fixed:
           report(a.fields['num_bits'] in fixed[op.name], gtt, label, f'accepted row {label}: no fixed output range for {a.fields["num_bits"]}-bit activations of {op.name}')
         for bits in [w.fields['num_bits']] + ([a.fields['num_bits']] if a is not None else []):
-          report(ladder_eval(lad, bits).startswith('return'), qt, label, f'accepted row {label}: no TFLite dtype for width {bits}')
+          report(has_tflite_type(bits), qt, label, f'accepted row {label}: no TFLite dtype for width {bits}')
   ctx.extra['lattice_rows'] = rows
   ctx.extra['accepted_rows'] = accepted_n
   ctx.extra['refused_at_construction'] = refused_ctor
